@@ -51,17 +51,10 @@ func runC18(c *Ctx) {
 			fields[st.Field(i).Name()] = st.Field(i).Type()
 		}
 	}
-	lost := false
-	for _, f := range []string{"path", "rwLock", "content", "authsCache", "credentialsStore"} {
-		if fields[f] == nil {
-			c.LostAnchor(R1, "field "+c18Cfg+"."+f)
-			lost = true
-		}
-	}
-	if lost {
+	cfgFns := c.P.FuncsOfPkg(c18CfgPkg)
+	if st == nil || !c18ResolveFields(c, R1, st, cfgFns) {
 		return
 	}
-	cfgFns := c.P.FuncsOfPkg(c18CfgPkg)
 	ioFns := c.P.FuncsOfPkg(c18IOPkg)
 	all := append(append([]*ssa.Function{}, cfgFns...), ioFns...)
 	c18R1(c, all)
@@ -69,6 +62,164 @@ func runC18(c *Ctx) {
 	c18R3(c, cfgFns, fields)
 	c18R4(c)
 	c18R5(c, cfgFns)
+}
+
+// The unexported state of Config, identified by TYPE and ROLE (renaming a field
+// changes nothing):
+//
+//	lock     the sync.RWMutex / sync.Mutex field
+//	content  the string-keyed map field that receives the constant key "auths" (the document written to the file)
+//	auths    the string-keyed map field whose json.Marshal is stored under "auths"
+//	creds    the string field whose json.Marshal is stored under "credsStore"
+//	path     the string field handed (directly or through helpers) to os.Rename as the new name
+var c18FPath, c18FLock, c18FContent, c18FAuths, c18FCreds string
+
+func c18ResolveFields(c *Ctx, R1 string, st *types.Struct, fns []*ssa.Function) bool {
+	c18FPath, c18FLock, c18FContent, c18FAuths, c18FCreds = "", "", "", "", ""
+	var strFields, mapFields []string
+	for i := 0; i < st.NumFields(); i++ {
+		f := st.Field(i)
+		switch t := f.Type().(type) {
+		case *types.Named:
+			if t.Obj().Pkg() != nil && t.Obj().Pkg().Path() == "sync" && (t.Obj().Name() == "RWMutex" || t.Obj().Name() == "Mutex") {
+				if c18FLock != "" {
+					c18FLock = "?"
+				} else {
+					c18FLock = f.Name()
+				}
+			}
+		}
+		if b, ok := f.Type().Underlying().(*types.Basic); ok && b.Kind() == types.String {
+			strFields = append(strFields, f.Name())
+		}
+		if m, ok := f.Type().Underlying().(*types.Map); ok {
+			if k, ok := m.Key().Underlying().(*types.Basic); ok && k.Kind() == types.String {
+				mapFields = append(mapFields, f.Name())
+			}
+		}
+	}
+	// the value stored under a constant key of a map field, and what was marshalled into it
+	marshalledField := func(fn *ssa.Function, val ssa.Value, cands []string) string {
+		for _, call := range CallsTo(fn, "encoding/json.Marshal", "encoding/json.MarshalIndent") {
+			r0 := ResultOf(call, 0)
+			if r0 == nil || !c11DerivesFrom(val, map[ssa.Value]bool{r0: true}) {
+				continue
+			}
+			for _, cf := range cands {
+				if c11DerivesFrom(call.Common().Args[0], c11FieldReads(fn, c18Cfg+"."+cf)) {
+					return cf
+				}
+			}
+		}
+		return ""
+	}
+	for _, fn := range fns {
+		AllInstrs(fn, func(in ssa.Instruction) {
+			mu, ok := in.(*ssa.MapUpdate)
+			if !ok {
+				return
+			}
+			k, isConst := constString(mu.Key)
+			if !isConst || (k != "auths" && k != "credsStore") {
+				return
+			}
+			for _, mf := range mapFields {
+				if !c11FieldReads(fn, c18Cfg+"."+mf)[mu.Map] {
+					continue
+				}
+				c18FContent = mf
+				if k == "auths" {
+					var others []string
+					for _, o := range mapFields {
+						if o != mf {
+							others = append(others, o)
+						}
+					}
+					if a := marshalledField(fn, mu.Value, others); a != "" {
+						c18FAuths = a
+					}
+				} else if cr := marshalledField(fn, mu.Value, strFields); cr != "" {
+					c18FCreds = cr
+				}
+			}
+		})
+	}
+	// fallbacks by type when the key-based evidence is gone (the rules then report what is wrong, not a lost anchor)
+	if c18FContent == "" {
+		for _, fn := range fns {
+			for _, call := range CallsTo(fn, "encoding/json.MarshalIndent") {
+				for _, mf := range mapFields {
+					if c11DerivesFrom(call.Common().Args[0], c11FieldReads(fn, c18Cfg+"."+mf)) {
+						c18FContent = mf
+					}
+				}
+			}
+		}
+	}
+	if c18FAuths == "" && c18FContent != "" {
+		var others []string
+		for i := 0; i < st.NumFields(); i++ {
+			if o := st.Field(i).Name(); o != c18FContent && c18IsRawMap(st.Field(i).Type()) {
+				others = append(others, o)
+			}
+		}
+		if len(others) == 1 {
+			c18FAuths = others[0]
+		}
+	}
+	// path: the string field that reaches os.Rename's new name
+	for _, sf := range strFields {
+		vals := map[ssa.Value]bool{}
+		for _, fn := range fns {
+			for v := range c11FieldReads(fn, c18Cfg+"."+sf) {
+				vals[v] = true
+			}
+		}
+		if len(vals) == 0 {
+			continue
+		}
+		c18PropagateToParams(fns, vals)
+		for _, fn := range fns {
+			for _, rn := range CallsTo(fn, "os.Rename") {
+				rs := Roots(rn.Common().Args[1])
+				all := len(rs) > 0
+				for _, r := range rs {
+					if !vals[r] {
+						all = false
+					}
+				}
+				if all {
+					c18FPath = sf
+				}
+			}
+		}
+	}
+	if c18FPath == "" {
+		// no rename left (the rules will say so): the string field whose directory is created / used for the temp file
+		for _, sf := range strFields {
+			for _, fn := range fns {
+				for _, d := range CallsTo(fn, "path/filepath.Dir") {
+					if c11DerivesFrom(d.Common().Args[0], c11FieldReads(fn, c18Cfg+"."+sf)) {
+						c18FPath = sf
+					}
+				}
+			}
+		}
+	}
+	ok := true
+	for _, x := range [][2]string{
+		{c18FLock, "the sync.RWMutex field of Config"},
+		{c18FContent, "the string-keyed map field of Config that receives the key \"auths\" (the document written to the file)"},
+		{c18FAuths, "the map field of Config whose json.Marshal is stored under \"auths\""},
+		{c18FCreds, "the string field of Config whose json.Marshal is stored under \"credsStore\""},
+		{c18FPath, "the string field of Config handed to os.Rename as the new name"},
+	} {
+		if x[0] == "" || x[0] == "?" {
+			c.LostAnchor(R1, x[1])
+			ok = false
+		}
+	}
+	return ok
 }
 
 // ---------- R5: one base64 alphabet ----------
@@ -286,7 +437,7 @@ func c18R1(c *Ctx, fns []*ssa.Function) {
 	// Config.path: loads of the field, and parameters of helpers that are only ever handed it
 	pathVals := map[ssa.Value]bool{}
 	for _, f := range fns {
-		for v := range c11FieldReads(f, c18Cfg+".path") {
+		for v := range c11FieldReads(f, c18Cfg+"."+c18FPath) {
 			pathVals[v] = true
 		}
 	}
@@ -1030,8 +1181,8 @@ func c18R2(c *Ctx) {
 	m := "(*" + c18Cfg + ")."
 	LockCheck(c, R2, []GuardSpec{{
 		Type:   c18Cfg,
-		Fields: []string{"content", "authsCache", "credentialsStore"},
-		Lock:   "rwLock",
+		Fields: []string{c18FContent, c18FAuths, c18FCreds},
+		Lock:   c18FLock,
 		Exempt: map[string]string{
 			"~/registry/remote/credentials/internal/config.Load": "the Config is under construction and not yet shared",
 			m + "IsAuthConfigured":                               "advisory query, not among Get/Put/Delete; documented exception (DESIGN C18.R2)",
@@ -1063,7 +1214,7 @@ func c18ReplaceUnderWriteLock(c *Ctx, R2 string) {
 			cache[f] = heldAt(f, heldSet{})
 		}
 		for path, mode := range cache[f][at] {
-			if strings.HasSuffix(path, ".rwLock") && mode >= modeW {
+			if strings.HasSuffix(path, "."+c18FLock) && mode >= modeW {
 				return true, ""
 			}
 		}
@@ -1143,15 +1294,15 @@ func c18MarshalOf(v ssa.Value, fn *ssa.Function, field string) bool {
 func c18R3(c *Ctx, fns []*ssa.Function, fields map[string]types.Type) {
 	const R3 = "C18.R3.preservation"
 	c.Expect(R3, 9)
-	for _, f := range []string{"content", "authsCache"} {
+	for i, f := range []string{c18FContent, c18FAuths} {
 		ok := c18IsRawMap(fields[f])
-		c.Exists(R3, "type|Config."+f, token.NoPos, ok, ifelse(ok, "map[string]json.RawMessage: entries that are not touched are carried verbatim, unknown fields included",
+		c.Exists(R3, "type|Config."+[]string{"content", "authsCache"}[i], token.NoPos, ok, ifelse(ok, "map[string]json.RawMessage: entries that are not touched are carried verbatim, unknown fields included",
 			"Config."+f+" is no longer map[string]json.RawMessage (it is "+fields[f].String()+"): unknown fields of the config file / of other registries' entries are dropped when the file is rewritten"))
 	}
 	for _, fn := range fns {
 		tn := FnName(fn)
-		content := c11FieldReads(fn, c18Cfg+".content")
-		auths := c11FieldReads(fn, c18Cfg+".authsCache")
+		content := c11FieldReads(fn, c18Cfg+"."+c18FContent)
+		auths := c11FieldReads(fn, c18Cfg+"."+c18FAuths)
 		keyOK := func(k ssa.Value, isContent bool) (bool, string) {
 			if isContent {
 				s, ok := constString(k)
@@ -1183,8 +1334,8 @@ func c18R3(c *Ctx, fns []*ssa.Function, fields map[string]types.Type) {
 			case *ssa.Store:
 				if fa, ok := u.Addr.(*ssa.FieldAddr); ok {
 					fname := fieldName(fa.X.Type(), fa.Field)
-					if (fname == c18Cfg+".content" || fname == c18Cfg+".authsCache") && !pathIsFresh(accessPath(fa.X)) {
-						c.Violation(R3, tn+"|replace:"+fname, u.Pos(), "the whole map is replaced on a shared Config: every entry not rebuilt here is lost at the next save")
+					if (fname == c18Cfg+"."+c18FContent || fname == c18Cfg+"."+c18FAuths) && !pathIsFresh(accessPath(fa.X)) {
+						c.Violation(R3, tn+"|replace:"+ifelse(fname == c18Cfg+"."+c18FContent, "content", "authsCache"), u.Pos(), "the whole map is replaced on a shared Config: every entry not rebuilt here is lost at the next save")
 					}
 				}
 			}
@@ -1211,9 +1362,9 @@ func c18R3(c *Ctx, fns []*ssa.Function, fields map[string]types.Type) {
 				src := ""
 				switch {
 				case isContent && what == "auths":
-					src = "authsCache"
+					src = c18FAuths
 				case isContent && what == "credsStore":
-					src = "credentialsStore"
+					src = c18FCreds
 				}
 				if src != "" && !c18MarshalOf(val, fn, src) {
 					ok, detail = false, "the value stored under "+what+" is not json.Marshal(Config."+src+")"
@@ -1241,7 +1392,7 @@ func c18R3(c *Ctx, fns []*ssa.Function, fields map[string]types.Type) {
 				return
 			}
 			fname := fieldName(fa.X.Type(), fa.Field)
-			if fname != c18Cfg+".content" && fname != c18Cfg+".authsCache" {
+			if fname != c18Cfg+"."+c18FContent && fname != c18Cfg+"."+c18FAuths {
 				return
 			}
 			if pathIsFresh(accessPath(fa.X)) {
@@ -1253,7 +1404,7 @@ func c18R3(c *Ctx, fns []*ssa.Function, fields map[string]types.Type) {
 				case *ssa.Store:
 					_ = u
 				default:
-					c.Undecided(R3, tn+"|address-taken:"+fname, fa.Pos(), "the address of the map field of a shared Config escapes; writes through it cannot be tracked")
+					c.Undecided(R3, tn+"|address-taken:"+ifelse(fname == c18Cfg+"."+c18FContent, "content", "authsCache"), fa.Pos(), "the address of the map field of a shared Config escapes; writes through it cannot be tracked")
 				}
 			}
 		})
@@ -1293,7 +1444,7 @@ func c18R3(c *Ctx, fns []*ssa.Function, fields map[string]types.Type) {
 			}
 			ok := chainOK
 			for _, mi := range marshals {
-				if !c11DerivesFrom(mi.Call.Args[0], c11FieldReads(mi.Parent(), c18Cfg+".content")) {
+				if !c11DerivesFrom(mi.Call.Args[0], c11FieldReads(mi.Parent(), c18Cfg+"."+c18FContent)) {
 					ok = false
 				}
 			}
@@ -1303,7 +1454,7 @@ func c18R3(c *Ctx, fns []*ssa.Function, fields map[string]types.Type) {
 				mf := mi.Parent()
 				for _, k := range []string{"auths", "credsStore"} {
 					var upd []ssa.Instruction
-					content := c11FieldReads(mf, c18Cfg+".content")
+					content := c11FieldReads(mf, c18Cfg+"."+c18FContent)
 					AllInstrs(mf, func(in ssa.Instruction) {
 						switch u := in.(type) {
 						case *ssa.MapUpdate:
